@@ -3,9 +3,12 @@
 // ops: 1 slot dm cm = Add | 2 slot = Drop | 3 = destroyObjects() | 4 d = destroyObjects(d ms) | 5 = size()
 //      6 = destroy the container | 7 slot = add the slot's object a second time
 // dm / cm: what the element destructor / the callback re-enters on the same container:
-//      0 nothing, 1 size(), 2 addObjectsToBeDestroyed(new object), 3 destroyObjects(), 4 destroyObjects(150ms)
-#include "vstd.hpp"
-#include "vpay.hpp"
+//      0 nothing, 1 size(), 2 addObjectsToBeDestroyed(new object), 3 destroyObjects(), 4 destroyObjects(150ms),
+//      m >= 5: addObjectsToBeDestroyed(new object whose destructor re-enters with mode 2 (m == 5) or m-1): a chain
+// Re-entry happens while the container is alive and during the body of ~DelayedDestructor (its sweeps); not from
+// a destructor run by a client Drop, and not while the vector member itself is being destroyed (detected by
+// finding the dying element still stored in the vector).
+#include "delayeddestructor_extra.hpp"  // vstd.hpp + vpay.hpp + the lockset-checking vstd::vector
 #define std vstd
 #define private public  // harness-side only: final() reads the vector size without an event
 #include "gmlc/concurrency/DelayedDestructor.hpp"
@@ -24,35 +27,30 @@ struct X {
 };
 using XP = std::shared_ptr<X>;
 
-struct IFace {
-    virtual ~IFace() = default;
-    virtual long destroy() = 0;
-    virtual long destroyDelay(long ms) = 0;
-    virtual long size() = 0;
-    virtual void add(XP p) = 0;
-    virtual long peek() = 0;
-};
-template<class DD>
-struct Impl: IFace {
-    DD dd;
-    Impl() = default;
-    explicit Impl(std::function<void(XP&)> f): dd(std::move(f)) {}
-    long destroy() override { return (long)dd.destroyObjects(); }
-    long destroyDelay(long ms) override { return (long)dd.destroyObjects(std::chrono::milliseconds(ms)); }
-    long size() override { return (long)dd.size(); }
-    void add(XP p) override { dd.addObjectsToBeDestroyed(std::move(p)); }
-    long peek() override { return (long)dd.ElementsToBeDestroyed.size(); }
-};
-
 struct DDComp {
-    std::unique_ptr<IFace> dd;
-    int cstate = 0;  // 0 alive, 1 being destroyed, 2 destroyed
+    // type-erased access to the container (no virtual calls on an object under destruction)
+    std::function<long()> f_destroy, f_size;
+    std::function<long(long)> f_delay;
+    std::function<void(XP)> f_add;
+    std::function<void()> f_delete;
+    const std::vector<XP>* rawvec = nullptr;  // unchecked view of ElementsToBeDestroyed
+    int cstate = 0;                           // 0 alive, 1 being destroyed, 2 destroyed
     long nobj = 0;
     long busy = 0;
     std::map<long, XP> slots;
     std::vector<std::weak_ptr<X>> wk{1};
     std::vector<long> dcount{0}, cbcount{0}, dmode{0}, cmode{0};
 
+    template<class DD>
+    void bind(DD* p)
+    {
+        f_destroy = [p] { return (long)p->destroyObjects(); };
+        f_delay = [p](long ms) { return (long)p->destroyObjects(std::chrono::milliseconds(ms)); };
+        f_size = [p] { return (long)p->size(); };
+        f_add = [p](XP x) { p->addObjectsToBeDestroyed(std::move(x)); };
+        f_delete = [p] { delete p; };
+        rawvec = &p->ElementsToBeDestroyed.vs_raw();
+    }
     explicit DDComp(const vs::Case& c)
     {
         g_comp = this;
@@ -67,18 +65,26 @@ struct DDComp {
                 if (!o.empty() && o[0] != 2) ++busy;
         auto cb = [this](XP& p) { callback(p); };
         using namespace gmlc::concurrency;
+        vs::vec_guard().disarm();
         if (locked) {
-            if (hascb) dd.reset(new Impl<DelayedDestructor<X>>(cb));
-            else dd.reset(new Impl<DelayedDestructor<X>>());
+            auto* p = hascb ? new DelayedDestructor<X>(cb) : new DelayedDestructor<X>();
+            bind(p);
+            // lockset rule: until ~DelayedDestructor starts, the vector is touched only under destructionLock
+            vs::vec_guard().arm(&p->ElementsToBeDestroyed, &p->destructionLock);
         } else {
-            if (hascb) dd.reset(new Impl<DelayedDestructorSingleThread<X>>(cb));
-            else dd.reset(new Impl<DelayedDestructorSingleThread<X>>());
+            auto* p = hascb ? new DelayedDestructorSingleThread<X>(cb) : new DelayedDestructorSingleThread<X>();
+            bind(p);
         }
     }
     ~DDComp()
     {
+        vs::vec_guard().disarm();
         slots.clear();
-        dd.reset();
+        if (cstate == 0) {
+            cstate = 1;
+            f_delete();
+        }
+        cstate = 2;
         g_comp = nullptr;
     }
     long newobj(long dm, long cm)
@@ -91,22 +97,30 @@ struct DDComp {
         cmode.push_back(cm);
         return id;
     }
+    void add_new(long dm, long cm)
+    {
+        long id = newobj(dm, cm);
+        XP p = std::make_shared<X>(id);
+        wk[id] = p;
+        f_add(std::move(p));
+    }
     void reenter(long m)
     {
-        if (cstate != 0) return;
+        if (cstate == 2) return;
         switch (m) {
-            case 1: dd->size(); break;
-            case 2: {
-                long id = newobj(0, 0);
-                XP p = std::make_shared<X>(id);
-                wk[id] = p;
-                dd->add(std::move(p));
-                break;
-            }
-            case 3: dd->destroy(); break;
-            case 4: dd->destroyDelay(150); break;
-            default: break;
+            case 0: break;
+            case 1: f_size(); break;
+            case 2: add_new(0, 0); break;
+            case 3: f_destroy(); break;
+            case 4: f_delay(150); break;
+            default: add_new(m == 5 ? 2 : m - 1, 0); break;
         }
+    }
+    bool in_vector(const X* x) const
+    {
+        for (const auto& e : *rawvec)
+            if (e.get() == x) return true;
+        return false;
     }
     void callback(XP& p)
     {
@@ -126,8 +140,9 @@ struct DDComp {
         }
         reenter(cmode[id]);
     }
-    void destructor(long id)
+    void destructor(const X* x)
     {
+        long id = x->id;
         if (!vs::active()) {
             dcount[id]++;
             return;
@@ -135,7 +150,9 @@ struct DDComp {
         vs::S().visible(vs::K_CALL, nullptr);
         dcount[id]++;
         vs::S().emit(vs::K_CALL, nullptr, 2 * id);
-        if (!t_in_drop) reenter(dmode[id]);
+        if (t_in_drop) return;
+        if (cstate == 1 && in_vector(x)) return;  // the vector member is being destroyed: hands off
+        reenter(dmode[id]);
     }
     long op(int, const std::vector<long>& o)
     {
@@ -152,7 +169,7 @@ struct DDComp {
                 XP p = std::make_shared<X>(id);
                 wk[id] = p;
                 if (o[1] != 0 && slots.find(o[1]) == slots.end()) slots[o[1]] = p;
-                dd->add(std::move(p));
+                f_add(std::move(p));
                 rv = id;
                 break;
             }
@@ -167,21 +184,22 @@ struct DDComp {
                 }
                 break;
             }
-            case 3: rv = dd->destroy(); break;
-            case 4: rv = dd->destroyDelay(o[1]); break;
-            case 5: rv = dd->size(); break;
+            case 3: rv = f_destroy(); break;
+            case 4: rv = f_delay(o[1]); break;
+            case 5: rv = f_size(); break;
             case 6:
                 vs::S().visible(vs::Pending{vs::K_DESTROY, nullptr, [this](int) { return busy == 1; }});
                 cstate = 1;
+                vs::vec_guard().disarm();  // the owner's destructor may touch its members without the lock
                 vs::S().emit(vs::K_DESTROY, nullptr, 0);
-                dd.reset();
+                f_delete();
                 cstate = 2;
                 break;
             case 7: {
                 auto it = slots.find(o[1]);
                 if (it != slots.end()) {
                     XP p = it->second;
-                    dd->add(std::move(p));
+                    f_add(std::move(p));
                 }
                 break;
             }
@@ -192,12 +210,12 @@ struct DDComp {
     }
     void final(std::vector<std::vector<long>>& out)
     {
-        out.push_back({nobj, cstate == 0 ? dd->peek() : 0, cstate == 0 ? 0 : 1, vs::plan().calls});
+        out.push_back({nobj, cstate == 0 ? (long)rawvec->size() : 0, cstate == 0 ? 0 : 1, vs::plan().calls});
         for (long id = 1; id <= nobj; ++id) out.push_back({id, (long)wk[id].use_count(), dcount[id], cbcount[id]});
     }
 };
 X::~X()
 {
-    if (g_comp != nullptr) g_comp->destructor(id);
+    if (g_comp != nullptr) g_comp->destructor(this);
 }
 int main(int argc, char** argv) { return vs::drive<DDComp>(argc, argv); }
